@@ -35,14 +35,29 @@ def U(name):
     return {'au': u.au, 'pc': u.pc, 'cm': u.cm}[name]
 
 
+def bracket(aps, col, req):
+    """|y_lo| + |y_hi| of the table interval that holds the request (0 on / beyond the ends)"""
+    for i in range(len(aps) - 1):
+        if aps[i] < req < aps[i + 1]:
+            return abs(col[i]) + abs(col[i + 1])
+    return 0.
+
+
 @st.composite
 def requests(draw, aps, allow_below=True):
     out = []
-    kinds = ['knot', 'between', 'above'] + (['below'] if allow_below else [])
+    kinds = ['knot', 'between', 'above', 'near'] + (['below'] if allow_below else [])
     for _ in range(draw(st.integers(1, 8))):
         kind = draw(st.sampled_from(kinds))
-        if kind == 'knot' or (kind == 'between' and len(aps) == 1):
+        if kind == 'knot' or (kind in ('between', 'near') and len(aps) == 1):
             out.append(draw(st.sampled_from(aps)))
+        elif kind == 'near':
+            # a request a few parts per million (down to 1e-8) away from a tabulated radius is NOT that radius: computed
+            # apertures (theta x d) land there
+            i = draw(st.integers(0, len(aps) - 1))
+            delta = 10. ** -draw(st.floats(4.5, 8., allow_nan=False))
+            up = draw(st.booleans()) or i == 0
+            out.append(aps[i] * (1. + delta) if up else aps[i] * (1. - delta))
         elif kind == 'between':
             i = draw(st.integers(0, len(aps) - 2))
             t = draw(st.floats(0.01, 0.99, allow_nan=False))
@@ -123,13 +138,15 @@ def run_conv(case, ctx):
             wf = om.interp_aperture(aps, case['flux'][m], req)
             we = om.interp_aperture(aps, case['err'][m], req)
             tol = rtol if kind != 'on a knot' or not same else 1e-12
-            span = max(case['flux'][m]) if not same else abs(wf)
+            # any evaluation order of a linear interpolant carries a few eps x (|y_lo| + |y_hi|) of absolute rounding, times
+            # x / (x_hi - x_lo) <= 21 when table and request went through a unit factor (1 ulp each)
+            span = max(case['flux'][m]) if not same else abs(wf) + 0.1 * bracket(aps, case['flux'][m], req)
             if abs(fv[m][j] - wf) > tol * max(abs(wf), span):
                 fail('request %r AU (%s; table %r AU): flux of %s is %r, %s gives %r' % (
                     req, kind, aps, case['names'][m], fv[m][j],
                     'the tabulated value' if kind == 'on a knot' else ('the largest-aperture value' if req > aps[-1] else 'linear interpolation'),
                     wf), 'c13:flux_interpolation')
-            spane = max(case['err'][m]) if not same else abs(we)
+            spane = max(case['err'][m]) if not same else abs(we) + 0.1 * bracket(aps, case['err'][m], req)
             if abs(ev[m][j] - we) > tol * max(abs(we), spane):
                 fail('request %r AU (%s): error of %s is %r, expected %r' % (req, kind, case['names'][m], ev[m][j], we),
                      'c13:error_interpolation')
